@@ -313,3 +313,35 @@ def rule_order(ctx, facts, rule):
               "dequeue ends %s, parking end %s" % (ends, sorted(parked)),
               "dequeue ends %s, new commands parked at %s: commands parked by force_send are replayed out of order by one of the "
               "send paths" % (ends, sorted(parked)), extra="fifo-all")
+
+
+def rule_parked_visible_to_collector(ctx, facts, rule):
+    """A finish/cancel signal that force_send had to park must reach the collector without a further tracing call by the
+    same thread (the thread may stay alive and idle). Structurally: the container force_send parks into is also
+    drained by code reachable from the collector side (handle_commands), or force_send does not park at all."""
+    field = overflow_field(facts)
+    prov = Prov(facts)
+    fs = facts.fn(SENDER + "::<T>::force_send")
+    if fs is None or field is None:
+        ctx.fail(rule, SENDER, "-", "force_send / overflow list exist", "anchor lost", extra="parked-anchor")
+        return
+    parks = [b for b, role, _, _ in classify_ops(fs, prov, field) if role == "enq"]
+    if not parks:
+        ctx.ok(rule, SENDER, fs.span, "force_send does not park commands", "", extra="parked-owner-only")
+        return
+    readers = set()
+    for g in facts.fns.values():
+        if g.crate != "fastrace":
+            continue
+        if any(role == "deq" for _, role, _, _ in classify_ops(g, prov, field)):
+            readers.add(g.path)
+    coll = facts.reachable(["fastrace::collector::global_collector::GlobalCollector::handle_commands"])
+    shared = sorted(r for r in readers if r in coll)
+    ctx.check(bool(shared), rule, SENDER, fs.span,
+              "a parked finish/cancel signal becomes visible to the collector without another tracing call of the parking thread",
+              "overflow list drained by collector-side code: %s" % shared,
+              "`%s` is read only by %s, none of which the collector can reach: a DropCollect/CommitCollect parked while the ring was "
+              "full waits until the SAME thread traces again or exits -- thread B (queue full) cancels a root and goes idle, thread "
+              "A finishes the root: the collector reads A's CommitCollect while B's DropCollect is still parked and delivers the "
+              "cancelled trace; a parked CommitCollect likewise keeps its trace's collector alive" % (field, sorted(readers)),
+              extra="parked-owner-only")
